@@ -232,7 +232,7 @@ func oneTransaction(w *load.World, c *core.Collector) {
 		n++
 		props := []string{"C01"}
 		if name == "InsertPoints" {
-			props = []string{"C01", "C15"}
+			props = []string{"C01", "C15", "C07"}
 		}
 		if name == "SearchPoints" {
 			props = []string{"C09", "C01"}
@@ -265,7 +265,9 @@ func oneTransaction(w *load.World, c *core.Collector) {
 					}
 					for _, a := range ci.Common().Args {
 						if mc, ok := a.(*ssa.MakeClosure); ok {
-							visit(mc.Fn.(*ssa.Function), lp, depth+1)
+							// a literal handed to something else runs as often as that something likes: the body
+							// of a range-over-func loop, a per-item callback
+							visit(mc.Fn.(*ssa.Function), true, depth+1)
 						}
 					}
 				}
